@@ -135,6 +135,46 @@ NEEDS = {
     "R3-C19-B": "complex-typed input with non-zero entries whose imaginary part is exactly 0",
     "R3-C20-A": "WriteToVTI with saveto without '.vti' and overwrite=False",
     "R3-C20-B": "point data given as a column-wise block vector of shape (n, nvec)",
+    "R4-C01-A": "SoftMinMax with a scaling strategy (scale factor != 1)",
+    "R4-C01-B": "sparse EigenSolve: seed mode 1, new state, seed only mode 0, reset, seed only mode 1 without a new response",
+    "R4-C02-A": "nested / flat network with only a non-terminal output seeded",
+    "R4-C02-B": "2-D signal consumed through a slice that combines a basic slice with an index list on a later axis",
+    "R4-C03-A": "sparse EigenSolve with partial seeding over several seed/sensitivity rounds per response",
+    "R4-C03-B": "SystemOfEquations: a pass seeding b, then a later cycle seeding only the state output",
+    "R4-C04-A": "two sensitivity() calls between resets on an ElementOperation-type module",
+    "R4-C04-B": "sparse EigenSolve, eigenvector seed that is non-positive with an exact zero (g(-w))",
+    "R4-C05-A": "one CG instance: update(A1), solve(T|H), update(A2), solve(T|H)",
+    "R4-C05-B": "complex non-symmetric non-Hermitian matrix, decoupled dof with non-real diagonal, trans T or H",
+    "R4-C06-A": "same as R4-C05-B",
+    "R4-C06-B": "non-symmetric matrix; T/H solve, update(A2), two further T/H solves",
+    "R4-C07-A": "same LinSolve evaluated twice, a dof decoupled in call 1 and coupled in call 2",
+    "R4-C07-B": "dense complex-symmetric (not Hermitian) matrix with symmetric=True",
+    "R4-C08-A": "2-D domain with unitz != 1 and a second module with the same material",
+    "R4-C08-B": "bc given and x of a wider type than the element matrix (complex x, or float x with integer element matrix)",
+    "R4-C09-A": "numeric boundary value on x (or y in 3-D) different from x[0] with padding in a later direction",
+    "R4-C09-B": "second DensityFilter with the same radius and element count but a different grid shape",
+    "R4-C10-A": "exactly one design signal with a pre-allocated sensitivity array",
+    "R4-C10-B": "per-signal lower bounds, an array-valued signal, non-zero lower bound",
+    "R4-C11-A": "complex Hermitian problem (sesquilinear vs bilinear normalisation)",
+    "R4-C11-B": "sparse Hermitian pencil with the shift inside the spectrum",
+    "R4-C12-A": "2-D domain with unitz != 1 and a second module with the same material",
+    "R4-C12-B": "element operator whose leading dimensions have product > 1",
+    "R4-C13-A": "grid with nnodes <= 255 but (nnodes-1)*ndof > 255 (or the 65535 threshold)",
+    "R4-C13-B": "evaluation point on an element face / edge / node",
+    "R4-C14-A": "at least 3 layers and non-zero density on the boundary row the first support offset does not reach",
+    "R4-C14-B": "negative print direction with unsupported material in the final layer",
+    "R4-C15-A": "symmetric dyad (v omitted or same array) followed by zeroing rows only or columns only",
+    "R4-C15-B": "complex vector with zero sum of squares ([1, 1j])",
+    "R4-C16-A": "lower_amt / upper_amt with duplicated values straddling the cut position",
+    "R4-C16-B": "negative rho with positive data of wide range (|rho|*(max-min) > 709)",
+    "R4-C17-A": "a design variable passed as an advanced-index sliced signal",
+    "R4-C17-B": "explicit maxvol not reachable within the move limits in the first iterations",
+    "R4-C18-A": "rank >= 2 signal, index tuple with a basic slice before an integer array",
+    "R4-C18-B": "one retained slice object used across a base reset",
+    "R4-C19-A": "a module whose _sensitivity returns None for an input the output depends on",
+    "R4-C19-B": "Network, fromsig the base signal, first consumer takes a slice, a later module the full signal",
+    "R4-C20-A": "2-D block-vector input whose first axis is the node / element axis (column-wise block)",
+    "R4-C20-B": "logged array signal that is not C-contiguous",
 }
 
 
